@@ -261,6 +261,40 @@ def run_config(chk, config):
     chk.oblig(unknown_ok and n_unknown >= 1, "reject-value | attribute_type",
               "unassigned attribute types are not all rejected with UnknownAvp(number)", {"rule": "x not in assigned => Err(UnknownAvp(x))"},
               {"obligation": "UnknownAvp(x) carries x and is reached only for unassigned x"})
+    # ... and the AVP list decoder reports every unassigned number (no record is dropped silently)
+    if a.avp_greedy is not None:
+        eg = mk()
+        ginfo = {"bad": [], "unassigned_paths": 0}
+
+        def on_loop(frame, head, H, res, havoc, lid):
+            if frame.key != a.avp_greedy["key"] or eg.mute:
+                return
+            for b in res["back"]:
+                evs = b.events()[H.ntrace:]
+                reads = [e for e in evs if e[0] == "read" and e[1] == "reader.*"]
+                pushes = [e for e in evs if e[0] == "push"]
+                if len(reads) < 4:
+                    continue
+                o1, vendor, atv = reads[0][3], reads[2][3], reads[3][3]
+                o1n = next(iter(o1.lin.t))
+                if b.bitfacts.get((o1n, 1)) is True or not eg.ent(b, c_eq(vendor.lin, Lin.const(0))):
+                    continue
+                if all(eg.ent(b, (atv.lin - c, "ne")) for c in sp["attribute_type"].values()):
+                    ginfo["unassigned_paths"] += 1
+                    okp = False
+                    if len(pushes) == 1:
+                        vi, p = result_parts(pushes[0][2])
+                        if vi == 1 and tables.variant_name(eg, p) == "UnknownAvp":
+                            x = p.variants[p.vidx.c][0]
+                            okp = isinstance(x, VInt) and x.lin == atv.lin
+                    if not okp:
+                        ginfo["bad"].append("a record with an unassigned attribute type is not reported as UnknownAvp(type) (pushes: %d)" % len(pushes))
+        eg.hooks["loop"] = on_loop
+        eg.analyse(a.avp_greedy["key"], name="AVP::try_read_greedy[%s]" % config)
+        chk.oblig(not ginfo["bad"] and ginfo["unassigned_paths"] >= 1, "reject-value | attribute_type | AVP list",
+                  "the AVP list decoder does not reject every unassigned attribute type: %s" % sorted(set(ginfo["bad"]))[:2],
+                  {"rule": "each of the remaining 16-bit attribute types is rejected", "paths": ginfo["unassigned_paths"]},
+                  {"obligation": "AVP::try_read_greedy pushes Err(UnknownAvp(x)) for every unassigned x", "paths": ginfo["unassigned_paths"]})
     enc = {}
     for vname, wf in sorted(a.payload_writers.items()):
         if vname == "Hidden":
